@@ -437,7 +437,11 @@ def unionJsonD (j : Json) : Except String Json := do
   let obj (a : Array (Array String)) : List (String × String) := a.toList.map fun r => (r[0]!, r[1]!)
   let out (o : List (String × String)) : Json := Json.arr (o.map fun kv => Json.arr #[Json.str kv.1, Json.str kv.2]).toArray
   match j.getObjValAs? (Array (Array String)) "decode" with
-  | .ok o => pure (out (UnionJson.marshal "null" fs (UnionJson.unmarshal fs (obj o))))
+  | .ok o =>
+    -- "additional": the union also has additional properties (the other template); values are exact here (`re` = identity)
+    match j.getObjValAs? Bool "additional" with
+    | .ok true => pure (out (UnionJson.marshalA "null" fs (UnionJson.unmarshalA id fs (obj o))))
+    | _ => pure (out (UnionJson.marshal "null" fs (UnionJson.unmarshal fs (obj o))))
   | .error _ =>
     let raw : Option (List (String × String)) := match j.getObjValAs? (Array (Array String)) "raw" with
       | .ok a => some (obj a)
